@@ -25,6 +25,7 @@ import (
 	"os"
 	"strings"
 	"sync"
+	"sync/atomic"
 	"time"
 
 	"github.com/fatedier/frp/pkg/msg"
@@ -41,6 +42,18 @@ var pa *h.PortAlloc
 // replyGrace bounds "a reply exists": frps answers a visitor message synchronously, no timer is configured;
 // this is a bounded-progress watchdog only.
 const replyGrace = 30 * time.Second
+
+// watchdogHits counts expired reply watchdogs. On a tree that answers (every tree on which the check is silent) it
+// stays 0; once several full-length watchdogs have expired (each already reported), later waits are shortened so
+// that a tree which never answers does not take hours.
+var watchdogHits atomic.Int64
+
+func grace() time.Duration {
+	if watchdogHits.Load() >= 6 {
+		return 4 * time.Second
+	}
+	return replyGrace
+}
 
 // env is one real frps shared by many cases (names embed the case id).
 type env struct {
